@@ -62,6 +62,9 @@ def _misparse(s: str) -> str:
 
 
 INVISIBLE_KEYS: dict[str, Any] = {}
+for _c in [*range(0x00, 0x20), 0x7F, *range(0x80, 0xA0)]:
+    INVISIBLE_KEYS["k" + chr(_c)] = f"ctl-{_c:02x}"
+    INVISIBLE_KEYS[chr(_c)] = {"x": f"ctl-only-{_c:02x}"}
 for _n, _v in INVISIBLES.items():
     INVISIBLE_KEYS["k" + _v] = "found-" + _n
     if _misparse(_v) != _v:
@@ -812,6 +815,77 @@ def _branch_units() -> Iterator[tuple[str, str]]:
                     yield f" \n pre \n {src} \n post \n ", f"branch-{name}-{bname}"
 
 
+def encode_string(value: str, q: str) -> str:
+    """Liquid source text (without the delimiters) of a string whose value is *value*, using
+    only the escapes that are mandatory inside a *q*-quoted string."""
+    out = []
+    for i, ch in enumerate(value):
+        if ch == "\\":
+            out.append("\\\\")
+        elif ch == q:
+            out.append("\\" + q)
+        elif ch == "$" and value[i + 1:i + 2] == "{":
+            out.append("\\$")
+        else:
+            out.append(ch)
+    return "".join(out)
+
+
+_SEQ_ALPHABET = ["\\", "'", '"', "$", "{", "}", "a"]
+_SEQ_SITES = [
+    ("{{ {} }}", "output"), ("{% echo {} %}", "echo"), ("{% assign v = {} %}[{{ v }}]", "assign"),
+    ("{{ s | append: {} | size }}", "filter-arg"), ("{% if {} == s %}T{% else %}F{% endif %}", "if"),
+    ("{% liquid echo {} %}", "liquid-echo"), ("{% cycle {}, 'z' %}{% cycle {}, 'z' %}", "cycle"),
+    ("{% case {} %}{% when {} %}same{% else %}other{% endcase %}", "case-when"),
+    ("{{ 'x${ {} }y' }}", "tstr-interp"), ("{% render 'p', x: {} %}", "render-kwarg"),
+]
+
+
+def _strseq_units() -> Iterator[tuple[str, str]]:
+    """String values made of every sequence (length 1..3) over backslash, both quotes, `$`,
+    `{`, `}` and an ordinary character - as plain strings, as template strings with an
+    interpolation at the start / in the middle / at the end, and as quoted path segments, in
+    both quote styles; sites rotate."""
+    k = 0
+    for n in (1, 2, 3):
+        for tup in itertools.product(_SEQ_ALPHABET, repeat=n):
+            value = "".join(tup)
+            for q in ("'", '"'):
+                body = encode_string(value, q)
+                half = encode_string(value[: n // 2 + 1], q), encode_string(value[n // 2 + 1:], q)
+                forms = [
+                    (f"{q}{body}{q}", "plain"),
+                    (f"{q}${{s}}{body}{q}", "tstr-start"),
+                    (f"{q}{half[0]}${{n}}{half[1]}{q}", "tstr-middle"),
+                    (f"{q}{body}${{s | upcase}}{q}", "tstr-end"),
+                ]
+                for lit, fname in forms:
+                    site, sname = _SEQ_SITES[k % len(_SEQ_SITES)]
+                    k += 1
+                    yield _fill(site, lit), f"strseq-{n}-{fname}@{sname}"
+                yield f"{{{{ a[{q}{body}{q}] }}}}|{{{{ a[{q}k{body}{q}].size }}}}", f"strseq-{n}-path-segment"
+
+
+# C0 controls, DEL and C1 controls, raw in the source with no backslash in the same string.  A
+# tree may reject some of these sources outright (then there is nothing to check); whatever a
+# tree accepts must survive the round trip.
+_RAW_CONTROLS = [chr(c) for c in [*range(0x00, 0x20), 0x7F, *range(0x80, 0xA0)]]
+
+
+def _rawctl_units() -> Iterator[tuple[str, str]]:
+    for ch in _RAW_CONTROLS:
+        tag = f"rawctl-{ord(ch):04x}"
+        yield f"{{{{ 'x{ch}y' }}}}|{{{{ \"{ch}\" | size }}}}", tag + "-string"
+        yield f"{{{{ 'p${{s}}{ch}q' }}}}|{{{{ \"{ch}${{n}}\" }}}}", tag + "-template-string"
+        yield f"{{{{ a['k{ch}'] }}}}|{{{{ [\"{ch}\"] }}}}|{{{{ a['{ch}'].x }}}}", tag + "-path-segment"
+        yield f"{{% cycle 'g{ch}': 1, 2 %}}{{% cycle 'g{ch}': 1, 2 %}}", tag + "-cycle-name"
+        yield f"{{% macro 'm{ch}' %}}M{{% endmacro %}}{{% call 'm{ch}' %}}", tag + "-macro-name"
+        yield f"{{% block 'b{ch}' %}}B{{% endblock %}}", tag + "-block-name"
+        yield f"{{% if s == 'hello{ch}' or '{ch}' contains '{ch}' %}}T{{% endif %}}", tag + "-condition"
+        yield f"{{% liquid echo 'x{ch}y'\nassign v = a['k{ch}']\necho v %}}", tag + "-liquid"
+        yield f"{{% include 'p' with '{ch}' as x %}}{{% render 'p', x: \"{ch}\" %}}", tag + "-partial-arg"
+
+
 def unit_cases() -> list[tuple[str, str, str]]:
     """[(label, feature, source)] — deterministic."""
     out: list[tuple[str, str, str]] = []
@@ -850,6 +924,10 @@ def unit_cases() -> list[tuple[str, str, str]]:
         add("tag", feat, src)
     for src, feat in _branch_units():
         add("branch", feat, src)
+    for src, feat in _strseq_units():
+        add("strseq", feat, src)
+    for src, feat in _rawctl_units():
+        add("rawctl", feat, src)
     return out
 
 
